@@ -7,6 +7,13 @@ BASE_NOTE = ("Trusted: Coq 8.16.1 kernel (no native_compute; vm_compute only in 
              "(Print Assumptions parsed every run; theorems at R would add the 3 stdlib real axioms); ExtrOcamlBasic extraction with Z/Q/Qc kept as datatypes + a Zarith I/O driver; "
              "the Python correspondence harness and its tolerances; JAX/NumPy primitives are modelled by contracts (rfftn/irfftn = DFT half-spectrum, scan = fold, exp). ")
 CLAIMED = {
+ "C15": dict(text="Theorems: trigonometric interpolation is exact (any field with a primitive root, any n, any query point: the character table is arbitrary) and reproduces every state at its grid points "
+                  "(inversion theorem); the copied mode blocks partition the smaller grid and preserve the signed wavenumber for all parity combinations; the resampling model keeps the mean of ANY "
+                  "state and all coefficients u_hat(k)/N^D of a Nyquist-free band-limited state when mapped to a finer grid or a coarser one that resolves it (any D, n, m, oddball setting). The model's "
+                  "kept-set and values are compared with the spectrum of map_between_resolutions for every (N_old, N_new) pair.",
+             note="The theorem on interpolation is the full complex spectrum statement in 1-D; the half-spectrum real form with reconstruction weights (and indexing='xy') is checked on the real code, "
+                  "including white noise on even grids at the grid points and query points outside the domain.",
+             technique="Rocq proof (DFT theory from a primitive root, lia on the slice arithmetic, field identities) + correspondence of the resampled spectra", design="§4 C15"),
  "C11": dict(text="Theorems (complex numbers over any ordered field; the order laws are premises, satisfiable over Q): for real coefficients and real wavenumbers in any dimension the advection / "
                   "dispersion symbols are purely imaginary, the order-2 / order-4 Laplace symbols are -sum kappa^2 / +sum kappa^4 (real), so diffusion and hyper-diffusion with non-negative "
                   "coefficients have non-positive real part; a mode multiplied by E with |E|^2 <= 1 does not grow (equality for |E|^2 = 1); the Parseval-weighted sum over all modes is monotone; the "
